@@ -638,8 +638,14 @@ impl Disk {
         match loc.cluster1 {
             Some(cluster1) => {
                 let mut data: Vec<u8> = Vec::new();
-                let cluster = cluster1.unwrap() + loc.entry.unwrap() / entries_per_cluster;
-                let entry_beg = (cluster - cluster1.unwrap()) * entries_per_cluster;
+                // the directory's clusters need not be contiguous: follow the chain
+                let hops = loc.entry.unwrap() / entries_per_cluster;
+                let mut cluster = cluster1.unwrap();
+                for _i in 0..hops {
+                    let (typ,fat_buf) = self.get_fat_buffer()?;
+                    cluster = fat::get_cluster(cluster, typ, fat_buf) as usize;
+                }
+                let entry_beg = hops * entries_per_cluster;
                 for i in entry_beg..entry_beg+entries_per_cluster {
                     data.append(&mut loc.dir.get_raw_entry(&Ptr::Entry(i)).to_vec());
                 }
